@@ -294,3 +294,37 @@ class Recorder:
         rec['ret'] = self.sched.now()
         rec['t1'] = self.sched.clock.now_peek()       # every clock read of the call lies in [t0, t1]
         return rec
+
+
+
+class LateHandles:
+    """handles[ci] is client ci's handle.  Unless all clients share one object, a handle is opened on first use - i.e.
+    inside the schedule, while the other clients are in the middle of their calls - and now and then replaced by a freshly
+    opened one (half of the time; otherwise all handles are opened beforehand, as a baseline)."""
+
+    def __init__(self, rng, n, factory, shared=None, reopen=0.12):
+        self.rng, self.factory, self.shared, self.reopen = rng, factory, shared, reopen
+        self.late = shared is None and rng.random() < 0.5
+        self.opened = []
+        self.items = [None] * n
+        if shared is None and not self.late:
+            self.items = [self._open() for _ in range(n)]
+
+    def _open(self):
+        h = self.factory()
+        self.opened.append(h)
+        return h
+
+    def __getitem__(self, ci):
+        if self.shared is not None:
+            return self.shared
+        if self.items[ci] is None or (self.late and self.rng.random() < self.reopen):
+            self.items[ci] = self._open()
+        return self.items[ci]
+
+    def all(self):
+        return list(self.opened) + ([self.shared] if self.shared is not None else [])
+
+    @property
+    def opened_inside(self):
+        return len(self.opened) if self.late else 0
